@@ -1569,6 +1569,15 @@ impl<T: Transport, Env: UtpEnvironment> VirtualSocket<T, Env> {
                     false,
                     "both reader and writer are dead",
                 );
+            } else if self.user_rx.is_reader_dropped() && self.user_tx.is_writer_dropped() {
+                // The application is gone but we can't finish yet (unsent data, e.g. behind a zero
+                // window of a remote whose reader is gone too): don't wait for the remote forever.
+                self.timers.remote_inactivity_timer.arm(
+                    self.this_poll.now,
+                    self.socket_opts.remote_inactivity_timeout,
+                    false,
+                    "application is gone, waiting for remote",
+                );
             }
 
             // If there's a timer-based next poll to run, arm the timer.
